@@ -118,10 +118,16 @@ Proof.
     cbn [is0_of]. replace (S (lpos l + 1)) with (lpos l + 1 + 1) by lia. reflexivity.
 Qed.
 
+(* the three radix markers: 0x, 0b, 0o *)
+Inductive rmark := RHex | RBin | ROct.
+Definition rmark_text (m : rmark) : string := match m with RHex => "x" | RBin => "b" | ROct => "o" end.
+Definition rmark_radix (m : rmark) : N := match m with RHex => 16%N | RBin => 2%N | ROct => 8%N end.
+
 (* the radix marker after a leading zero *)
 Definition radix_mark (s : string) : option N :=
   match s with
-  | String c _ => if (byte_of c =? 98)%N then Some 2%N else if (byte_of c =? 120)%N then Some 16%N else None
+  | String c _ => if (byte_of c =? 98)%N then Some 2%N else if (byte_of c =? 120)%N then Some 16%N
+                  else if (byte_of c =? 111)%N then Some 8%N else None
   | "" => None
   end.
 
@@ -144,31 +150,31 @@ Proof.
               (None, sgn_text sg ++ String c0 "", body ++ rest, lpos l + String.length (sgn_text sg) + 1)).
   { unfold num_stage2. destruct (byte_of c0 =? 48)%N; [|reflexivity].
     specialize (Hm eq_refl). unfold radix_mark in Hm. destruct (body ++ rest) as [|c3 r3]; [reflexivity|].
-    destruct (byte_of c3 =? 98)%N; [discriminate|]. destruct (byte_of c3 =? 120)%N; [discriminate|]. reflexivity. }
+    destruct (byte_of c3 =? 98)%N; [discriminate|]. destruct (byte_of c3 =? 120)%N; [discriminate|].
+    destruct (byte_of c3 =? 111)%N; [discriminate|]. reflexivity. }
   rewrite E. rewrite word_finish_numeric by assumption.
   rewrite app_assoc_s. cbn [append]. reflexivity.
 Qed.
 
-(* a numeric text with radix marker 0x / 0b *)
-Lemma lex_next_numeric_marked l sg (hex : bool) body rest :
-  lrest l = sgn_text sg ++ "0" ++ (if hex then "x" else "b") ++ body ++ rest ->
+(* a numeric text with radix marker 0x / 0b / 0o *)
+Lemma lex_next_numeric_marked l sg (m : rmark) body rest :
+  lrest l = sgn_text sg ++ "0" ++ rmark_text m ++ body ++ rest ->
   no_ws body = true -> next_is_ws_or_end rest = true ->
   let p4 := lpos l + String.length (sgn_text sg) + 2 + String.length body in
   lex_next l =
-  (numeric_tok (lpos l) p4 "0" (Some (if hex then 16%N else 2%N)) (sgn_text sg ++ strip_us body) (has_dot body),
+  (numeric_tok (lpos l) p4 "0" (Some (rmark_radix m)) (sgn_text sg ++ strip_us body) (has_dot body),
    mklex rest p4 (lpos l) (llen l)).
 Proof.
   intros Hl Hb Hr p4.
-  assert (Hl' : lrest l = sgn_text sg ++ String "0" (String (if hex then "x"%char else "b"%char) (body ++ rest))).
-  { rewrite Hl. destruct hex; reflexivity. }
+  assert (Hl' : lrest l = sgn_text sg ++ String "0" (rmark_text m ++ body ++ rest)) by exact Hl.
   rewrite (lex_next_numeric l sg "0" _ eq_refl Hl').
   assert (E : num_stage2 (byte_of "0" =? 48)%N (sgn_text sg ++ "0")
-                         (String (if hex then "x"%char else "b"%char) (body ++ rest))
+                         (rmark_text m ++ body ++ rest)
                          (lpos l + String.length (sgn_text sg) + 1) =
-              (Some (if hex then 16%N else 2%N), sgn_text sg, body ++ rest,
+              (Some (rmark_radix m), sgn_text sg, body ++ rest,
                S (lpos l + String.length (sgn_text sg) + 1))).
   { unfold num_stage2. change (byte_of "0" =? 48)%N with true. cbv iota. rewrite str_pop_sgn0.
-    destruct hex; reflexivity. }
+    destruct m; reflexivity. }
   rewrite E. rewrite word_finish_numeric by assumption. subst p4.
   replace (S (lpos l + String.length (sgn_text sg) + 1) + String.length body)
     with (lpos l + String.length (sgn_text sg) + 2 + String.length body) by lia.
@@ -307,18 +313,18 @@ Qed.
 Lemma nitems_text_length items : String.length (nitems_text items) = List.length items.
 Proof. induction items as [|i items IH]; [reflexivity|]. cbn [nitems_text String.length List.length]. rewrite IH. reflexivity. Qed.
 
-(* [sign] 0x / 0b digits-and-separators *)
-Lemma lex_next_int_marked l sg (hex : bool) items rest :
-  let radix := if hex then 16%N else 2%N in
+(* [sign] 0x / 0b / 0o digits-and-separators *)
+Lemma lex_next_int_marked l sg (m : rmark) items rest :
+  let radix := rmark_radix m in
   forallb (nitem_ok radix) items = true -> next_is_ws_or_end rest = true ->
-  lrest l = sgn_text sg ++ "0" ++ (if hex then "x" else "b") ++ nitems_text items ++ rest ->
+  lrest l = sgn_text sg ++ "0" ++ rmark_text m ++ nitems_text items ++ rest ->
   let p4 := lpos l + String.length (sgn_text sg) + 2 + List.length items in
   lex_next l = (int_tok sg radix items (lpos l) p4, mklex rest p4 (lpos l) (llen l)).
 Proof.
   intros radix Hok Hr Hl p4.
-  assert (R36 : (radix <= 36)%N) by (subst radix; destruct hex; lia).
+  assert (R36 : (radix <= 36)%N) by (subst radix; destruct m; cbn [rmark_radix]; lia).
   destruct (nitems_no_ws radix items R36 Hok) as (I1 & I2 & I3).
-  rewrite (lex_next_numeric_marked l sg hex (nitems_text items) rest Hl I1 Hr). cbv zeta.
+  rewrite (lex_next_numeric_marked l sg m (nitems_text items) rest Hl I1 Hr). cbv zeta.
   rewrite I2, I3, nitems_text_length.
   rewrite (numeric_tok_int (lpos l) _ "0" (Some radix) radix sg items R36 Hok eq_refl). reflexivity.
 Qed.
@@ -401,7 +407,7 @@ Proof.
 Qed.
 
 (* a numeric text (no radix marker, no dot) that contains a character which is not a digit of
-   its radix is a parse error - this is what happens to 1e5, 12abc, 0o17 *)
+   its radix is a parse error - this is what happens to 1e5, 12abc, 09z *)
 Lemma lex_next_int_bad_digit l sg c0 a c b rest :
   is_digit c0 = true -> lrest l = sgn_text sg ++ String c0 ((a ++ String c b) ++ rest) ->
   no_ws (a ++ String c b) = true -> has_dot (a ++ String c b) = false -> next_is_ws_or_end rest = true ->
@@ -437,12 +443,12 @@ Proof.
 Qed.
 
 (* with a radix marker a dot is an error *)
-Lemma lex_next_real_marked l sg (hex : bool) body rest :
-  lrest l = sgn_text sg ++ "0" ++ (if hex then "x" else "b") ++ body ++ rest ->
+Lemma lex_next_real_marked l sg (m : rmark) body rest :
+  lrest l = sgn_text sg ++ "0" ++ rmark_text m ++ body ++ rest ->
   no_ws body = true -> has_dot body = true -> next_is_ws_or_end rest = true ->
   let p4 := lpos l + String.length (sgn_text sg) + 2 + String.length body in
   lex_next l = (TErr PFloat (lpos l) p4, mklex rest p4 (lpos l) (llen l)).
 Proof.
   intros Hl Hb Hd Hr p4.
-  rewrite (lex_next_numeric_marked l sg hex body rest Hl Hb Hr). cbv zeta. rewrite Hd. reflexivity.
+  rewrite (lex_next_numeric_marked l sg m body rest Hl Hb Hr). cbv zeta. rewrite Hd. reflexivity.
 Qed.
